@@ -150,7 +150,11 @@ def fdefD (NF : List String) : FieldDecl → List String
   | .oneOf fs => "fast:multi-wrapper" :: fdefL NF fs
   | .allOf fs => "fast:multi-wrapper" :: fdefL NF fs
   | .notF fs => "fast:multi-wrapper" :: fdefL NF fs
-  | .anyOf fs => (if fs.length == 2 && fs.any isNoneF then [] else ["fast:multi-wrapper"]) ++ fdefL NF fs
+  | .anyOf fs =>
+    (if fs.length == 2 && fs.any isNoneF then
+       -- an Optional: the non-None option must not be an AnyOf again (and must exist)
+       (if fs.all (fun g => isNoneF g || isAnyOfD g) then ["optional-shape:unproved"] else [])
+     else ["fast:multi-wrapper"]) ++ fdefL NF fs
   | .seqOf _ item _ => fdefD NF item
   | .setOf _ item _ => fdefD NF item
   | .tuplePos items _ => fdefL NF items
